@@ -150,6 +150,15 @@ Proof.
 Qed.
 End Tie.
 
+(* non-vacuity: T = 4, sinh: timeslice 0 is a root, timeslices 1 = T/2 - 1 and 2 = T/2 carry its entry; cosh: three roots; T = 5, sinh: the
+   straddling timeslice 2 is undefined, and so is timeslice 3, whose ratio is negative *)
+Example m_eff_root_loop_examples :
+  let root := fun (a b : Q) (t : Z) => (a / b + inject_Z t)%Q in
+  m_eff_root_loop Q (fun q => q) root [Some 3; Some 2; Some 1; Some (-1)]%Q true = Ok [Some (3 / 2 + 0); Some (3 / 2 + 0); Some (3 / 2 + 0)]%Q
+  /\ m_eff_root_loop Q (fun q => q) root [Some 3; Some 2; Some 1; Some 2]%Q false = Ok [Some (3 / 2 + 0); Some (2 / 1 + 1); Some (1 / 2 + inject_Z 2)]%Q
+  /\ m_eff_root_loop Q (fun q => q) root [Some 4; Some 3; Some 1; Some (-1); Some 2]%Q true = Ok [Some (4 / 3 + 0); Some (3 / 1 + 1); None; None]%Q.
+Proof. cbv zeta. repeat split; vm_compute; reflexivity. Qed.
+
 Print Assumptions m_eff_root_loop_tie.
 Print Assumptions odd_T_is_never_filled.
 Print Assumptions straddling_timeslice_is_undefined.
